@@ -246,6 +246,10 @@ func runScenario(t *testing.T, w *world, sc scen) (res result) {
 		}
 		running := func(except int) {
 			for j, r := range rs {
+				// a reader woken meanwhile may have run into its armed second gate (final lookup)
+				if r.started && r.gated == 0 && !r.done.Load() {
+					r.gated = gds.heldAt(j)
+				}
 				if j != except && r.started && r.gated == 0 {
 					rdn(j, 2)
 				}
@@ -393,9 +397,11 @@ func runScenario(t *testing.T, w *world, sc scen) (res result) {
 		}
 		// let every flush finish and every held reader go
 		wrelease()
-		for i := range rs {
-			release(i)
-			release(i)
+		for round := 0; round < 3; round++ {
+			for i := range rs {
+				release(i)
+			}
+			running(-1)
 		}
 		synctest.Wait()
 		obs := make([]string, nr)
@@ -419,7 +425,15 @@ func runScenario(t *testing.T, w *world, sc scen) (res result) {
 		}
 		res.term = fmt.Sprintf("Case12 %s %s %s %d %d", emit.List(ns), emit.List(ev), emit.List(obs), height, head)
 		res.descr = map[string]any{"scenario": sc, "obs": obs, "height": height, "head": head}
-		// cleanup: nothing may outlive the bubble
+		// cleanup: nothing may outlive the bubble (open every gate still armed, end every context)
+		gds.mu.Lock()
+		for _, m := range gds.rgate {
+			for k, ch := range m {
+				close(ch)
+				delete(m, k)
+			}
+		}
+		gds.mu.Unlock()
 		for _, r := range rs {
 			r.cancel()
 		}
